@@ -104,6 +104,7 @@ func (eng *Engine) initStubsHash() {
 		e.oracleArg["rsa.verify.key"] = args[0]
 		if e.Choice(2) == 0 {
 			e.oracle["rsa.verify"] = 0
+			e.oracleArgs["rsa.verify.okkey"] = append(e.oracleArgs["rsa.verify.okkey"], args[0])
 			return Iface{}
 		}
 		e.oracle["rsa.verify"] = 1
@@ -138,13 +139,22 @@ func (eng *Engine) initStubsHash() {
 	}
 	s[vpPath+".StubArgIs"] = func(e *Exec, _ *frame, _ *ssa.Function, args []Value) Value {
 		name, _ := args[0].(*StrV).conc()
+		itf := args[1].(Iface)
+		hp, ok2 := itf.v.(Ptr)
+		if list, ok := e.oracleArgs[name]; ok {
+			// list-valued record: true iff some recorded value is the given pointer
+			for _, seen := range list {
+				if sp, ok1 := seen.(Ptr); ok1 && ok2 && sp.cell == hp.cell && sp.cell != nil {
+					return e.tc.True
+				}
+			}
+			return e.tc.False
+		}
 		seen, ok := e.oracleArg[name]
 		if !ok {
 			return e.tc.False
 		}
-		itf := args[1].(Iface)
 		sp, ok1 := seen.(Ptr)
-		hp, ok2 := itf.v.(Ptr)
 		return e.tc.Bool(ok1 && ok2 && sp.cell == hp.cell && sp.cell != nil)
 	}
 	s[vpPath+".StubResult"] = func(e *Exec, _ *frame, _ *ssa.Function, args []Value) Value {
